@@ -553,7 +553,8 @@ def check_heap(rep, repo: Repo, pre: str = "") -> None:
         expanded = []
         for e in w.events:
             # `j = left if <test> else i` is `if <test>: j = left` / `else: j = i`
-            if e.kind == "bind" and e.value is not None and strip_old(e.value)[0] == "sel":
+            if e.kind == "bind" and e.value is not None and strip_old(e.value)[0] == "sel" and isinstance(e.stmt, ast.Assign) \
+                    and isinstance(e.stmt.value, ast.IfExp):
                 sv = strip_old(e.value)
                 expanded.append(_dc.replace(e, value=sv[2], guards=e.guards + ((sv[1], True),)))
                 expanded.append(_dc.replace(e, value=sv[3], guards=e.guards + ((sv[1], False),)))
